@@ -21,6 +21,11 @@ CHECKS = {
     text="Two-branch block universes over a 5-transaction universe (in-block chains, the same tx re-committed across the fork, conflicting spends of a cell created on both branches, uncles, forks straddling the epoch boundary) are generated exhaustively within the bound; every topological interleaving of the branches (with a truncation at every position for the designed universes) is executed on a fresh real node; after every step all canonical columns of the store and of the published snapshot are compared byte-for-byte with an independent from-genesis replay, and the final state with a node that only saw the final main chain.",
     note="Trusted: flat-difficulty world, always-success scripts, RefChain (plain maps + molecule encoders + external MMR library), RocksDB; received_at masked; cycles compared differentially.",
     design="DESIGN.md §5 C02"),
+ "C08": dict(engine="crash", category="fault_enumeration",
+    technique="exhaustive crash-point enumeration: a child process runs each import history and is killed before its N-th database write for every N; real restart path + C02 reference replay + convergence check; depth-2 crashes during recovery (thorough)",
+    text="For each history (reorgs, an invalid block in the middle of the otherwise winning branch, children delivered before parents, sequential and burst delivery) a child process is killed (_exit) immediately before every one of its database writes (boot-time writes included); the parent re-opens the directory through SharedBuilder/InitLoadUnverified and requires: it opens, store and snapshot equal a from-genesis replay of the recovered main chain, every stored block that can be verified gets its record again, the tip is maximal among stored fully valid chains, and after redelivery the state equals the crash-free run. Thorough additionally kills the recovery itself at every one of its writes.",
+    note="Trusted: process-crash model (completed writes durable, RocksDB write atomicity); write order between threads as produced by the OS in that child run; flat world.",
+    design="DESIGN.md §5 C08"),
  "C09": dict(engine="crash", category="fault_enumeration",
     technique="explicit-state BFS over freezer operation histories on the real code + exhaustive crash-image (torn data/index file) enumeration per reached state",
     text="Every history of <=4 (quick) / <=6 (thorough) Append/Truncate/Sync/Reopen operations on the real FreezerFiles with a 40-byte file limit, and every Freezer-level freeze/truncate/reopen history on real packed blocks, is executed; for every reached state every crash image (head data file x INDEX cut to every byte length between last-synced and final size, new head absent/empty) is recovered by the real repair code and compared with a reference item list. Exhaustive within the bound; the bound covers every branch of the repair loop including the walk back across a file boundary.",
